@@ -52,12 +52,12 @@ pub fn synth_schema_sdl() -> String {
         d_args.push_str(&format!("{}0: {}, {}1: [{}!], ", b.to_lowercase(), b, b.to_lowercase(), b));
     }
     format!(
-        "enum Color {{ RED GREEN BLUE }}\nscalar Date\n\
+        "enum Color {{ RED GREEN BLUE }}\nenum Signal {{ GREEN AMBER }}\nscalar Date\n\
          input Point {{ x: Int! y: Int! = 0 label: String tags: [String!] inner: Point pts: [[Point!]] c: Color d: Date f: Float b: Boolean id: ID nl: [Int!]! }}\n\
          input Small {{ p: Int! q: Int }}\ninterface Node {{ id: ID! }}\ninterface Named implements Node {{ id: ID! name: String }}\n\
          type A implements Node & Named {{ id: ID! name: String nick: String a: Int peer: B self: A list: [A!]! nested: [[A]] selfN: A! selfL: [A] selfLN: [A!] selfNL: [A]! nameN: String! names: [String] arg1(x: Int): A arg2(y: Int!, z: Int, l: [Int!], ln: [Int!]!, d: Int! = 1): A leafArg(x: Int, y: Int!): Int }}\n\
          type B implements Node {{ id: ID! b: Float peer: A peerN: A! peerL: [A] peerLN: [A!] peerNL: [A]! peerNLN: [A!]! peerLL: [[A]] s: String sN: String! sL: [String] i: Int name: String nick: String arg1(x: Int): A arg2(q: Int): A leafArg(q: Int): Int }}\nunion AB = A | B\n\
-         type Query {{\n  small(a: Small, l: [Small!]): Int\n  node: Node\n  named: Named\n  a: A\n  b: B\n  ab: AB\n{}}}\n\
+         type Query {{\n  both(color: Color, signal: Signal, colors: [Color], box: Small): Int\n  small(a: Small, l: [Small!]): Int\n  node: Node\n  named: Named\n  a: A\n  b: B\n  ab: AB\n{}}}\n\
          type Mutation {{ m(a: Int): Int }}\ntype Subscription {{ s1: Int s2: Int sa: A }}\n\
          directive @args({}req: Boolean! = true) repeatable on FIELD | QUERY | MUTATION | SUBSCRIPTION | FRAGMENT_DEFINITION | FRAGMENT_SPREAD | INLINE_FRAGMENT\n\
          directive @onQ on QUERY\ndirective @onM on MUTATION\ndirective @onS on SUBSCRIPTION\ndirective @onF on FIELD\n\
@@ -1127,6 +1127,65 @@ pub fn cycle_multi_edge_cases() -> Vec<GDoc> {
                 out.push(GDoc(defs));
             }
         }
+    }
+    out
+}
+
+
+/// C08: TWO enum literals in one document, at positions expecting two enums that share a value
+/// (Color { RED GREEN BLUE }, Signal { GREEN AMBER }): every pair of literals from both enums and an
+/// unknown name, as sibling arguments in both orders, in two fields, in two operations, and with a
+/// list item first.
+pub fn enum_pair_cases() -> Vec<GDoc> {
+    let lits = ["RED", "GREEN", "AMBER", "NOPE"];
+    let e = |x: &str| GValue::Enum(x.to_string());
+    let fld = |alias: Option<&str>, args: Vec<(&str, GValue)>| GSel::Field { alias: alias.map(|a| a.to_string()), name: "both".into(),
+        args: args.into_iter().map(|(k, v)| (k.to_string(), v)).collect(), dirs: vec![], sels: vec![] };
+    let op = |name: &str, sels: Vec<GSel>| GDef::Op { kind: OpKind::Query, name: Some(name.into()), vars: vec![], dirs: vec![], sels };
+    let mut out = vec![];
+    for x in lits {
+        for y in lits {
+            out.push(GDoc(vec![op("Q", vec![fld(None, vec![("color", e(x)), ("signal", e(y))])])]));
+            out.push(GDoc(vec![op("Q", vec![fld(None, vec![("signal", e(y)), ("color", e(x))])])]));
+            out.push(GDoc(vec![op("Q", vec![fld(Some("a1"), vec![("color", e(x))]), fld(Some("a2"), vec![("signal", e(y))])])]));
+            out.push(GDoc(vec![op("Q", vec![fld(Some("a1"), vec![("signal", e(y))]), fld(Some("a2"), vec![("color", e(x))])])]));
+            out.push(GDoc(vec![op("Q1", vec![fld(None, vec![("color", e(x))])]), op("Q2", vec![fld(None, vec![("signal", e(y))])])]));
+            out.push(GDoc(vec![op("Q", vec![fld(None, vec![("colors", GValue::List(vec![e(x)])), ("signal", e(y))])])]));
+        }
+    }
+    out
+}
+
+/// C13: documents on which SEVERAL rules report, with two or more operation names each used twice
+/// (so that rules reporting after the walk have several errors of their own), unknown fragments,
+/// undefined variables and unknown fields spread over the operations.
+pub fn multi_error_cases(rng: &mut Rng, n: usize) -> Vec<GDoc> {
+    let leaf = |name: &str| GSel::Field { alias: None, name: name.into(), args: vec![], dirs: vec![], sels: vec![] };
+    let mut out = vec![];
+    for _ in 0..n {
+        let mut names = vec!["Foo", "Foo", "Bar", "Bar"];
+        if rng.pct(40) { names.push("Baz"); }
+        if rng.pct(30) { names.push("Foo"); }
+        for a in (1..names.len()).rev() {
+            let b = rng.below(a + 1);
+            names.swap(a, b);
+        }
+        let mut defs = vec![];
+        for nm in names {
+            let mut sels = vec![leaf("__typename")];
+            match rng.below(5) {
+                0 => sels.push(GSel::Spread { name: "Missing".into(), dirs: vec![] }),
+                1 => sels.push(leaf("zzNope")),
+                2 => sels.push(GSel::Field { alias: None, name: "f_Int_0".into(), args: vec![("a".to_string(), GValue::Var("u".into()))], dirs: vec![], sels: vec![] }),
+                3 => sels.push(GSel::Field { alias: None, name: "a".into(), args: vec![], dirs: vec![GDir { name: "zzUnknown".into(), args: vec![] }], sels: vec![] }),
+                _ => {}
+            }
+            defs.push(GDef::Op { kind: OpKind::Query, name: Some(nm.to_string()), vars: vec![], dirs: vec![], sels });
+        }
+        if rng.pct(50) {
+            defs.push(GDef::Frag { name: "Unused".into(), tc: "Query".into(), dirs: vec![], sels: vec![leaf("__typename")] });
+        }
+        out.push(GDoc(defs));
     }
     out
 }
